@@ -375,7 +375,7 @@ def hist_line(hist):
     return "engine\thistory\t" + pj(evs)
 
 
-def run_property(chk, prop, laws, quick_gen=120, thorough_gen=3000, scns=None, n_rand=None, expect=None, rule=None,
+def run_property(chk, prop, laws, quick_gen=300, thorough_gen=4000, scns=None, n_rand=None, expect=None, rule=None,
                  skip_multi=True):
     """run the scenario corpus x schedules with the monitor; report only the laws of `prop`"""
     quick = chk.tier == "quick"
